@@ -179,6 +179,11 @@ func (s *sharedEntryAttributes) resolve_leafref_key_path(ctx context.Context, ke
 			return err
 		}
 
+		// a value that the transaction takes away (its running copy goes with it) cannot select the referenced entry
+		if !keyValue.remainsToExist() {
+			return fmt.Errorf("no value remains for %s, referenced by the leafref of %s", keyValue.Path(), s.Path())
+		}
+
 		lvs := keyValue.GetHighestPrecedence(LeafVariantSlice{}, false)
 		if len(lvs) == 0 {
 			return fmt.Errorf("no value present for %s, referenced by the leafref of %s", keyValue.Path(), s.Path())
